@@ -181,6 +181,18 @@ def check_minixr():
         return n, bad
     if tuple(cm["y"].dims) != tuple(cr_["y"].dims) or tuple(cm["x"].dims) != tuple(cr_["x"].dims):
         return n, "concat dims differ: %r vs %r" % (cm["y"].dims, cr_["y"].dims)
+    # concat of pieces whose internal coordinate differs (outer join) and join="override"
+    pieces2 = [mx.Dataset(data_vars={"y": (("t",), [float(i), 2.0 + i])}, coords={"t": [i, i + 1]}) for i in range(3)]
+    for jn in ("outer", "override"):
+        om = outcome(lambda: mx.concat(pieces2, dim="a", join=jn))
+        orr = outcome(lambda: xr.concat([to_real(p) for p in pieces2], dim="a", join=jn))
+        n += 1
+        if om[0] != orr[0]:
+            return n, "concat join=%s outcome differs: %r vs %r" % (jn, om, orr)
+        if om[0] == "ok":
+            bad = same(om[1], orr[1], "concat join=%s" % jn)
+            if bad:
+                return n, bad
     em = cm.expand_dims("c")
     em.coords["c"] = [7]
     er = cr_.expand_dims("c")
